@@ -417,6 +417,10 @@ func runC15Agent(s *kernel.Sim) {
 	ag := &agent.Agent{EthNode: node, NumHosts: 1 + s.Choose("target", 4), StrictPeers: s.Choose("strict", 2) == 1, UpdateInterval: time.Minute, Version: "sim"}
 	asrv.RegisterMethod("vipnode_whitelist", ag, "Whitelist")
 	remote := &jsonrpc2.Remote{Codec: ae, Server: asrv, Client: &jsonrpc2.Client{}}
+	if s.Choose("clientwiring", 4) == 0 {
+		// the wiring of the `vipnode client` command (client.go): a Remote with a codec and nothing else
+		remote = &jsonrpc2.Remote{Codec: ae}
+	}
 	rp := pool.Remote(remote, key)
 	var serveEnded atomic.Bool
 	s.GoBG("agent.serve", func() { remote.Serve(); serveEnded.Store(true) })
